@@ -1,5 +1,6 @@
 import HidVerif.Proofs.Prophetic
 import HidVerif.Proofs.Guards
+import HidVerif.Proofs.CoreMain
 /-!
 # C18 — reproducible builds; options do not change meaning
 
@@ -29,5 +30,32 @@ theorem entry_guard_monotone {p : Prog} {B pc ok k : Nat} {m m' : Mem} (hp : Pla
     (hfp' : m'.readLE p.w p.w = fp') (hap' : m'.readLE 0 p.w = ap') (hle' : ap' ≤ fp')
     (hmore : fp - ap ≤ fp' - ap') : Reach (sphinx p) ⟨pc, m'⟩ [] ⟨ok, m'⟩ :=
   (Sphinx.entry_guard_exact hp h hok hsz hk hfp' hap' hle').1 (by omega)
+
+/-! ## On the verified core: a run that fits behaves identically at every larger stack size -/
+
+/-- **C18 (stack size) on the core**: if a core program runs to completion with stack size `S`
+(the stack holds the entry frame and every callee frame: the source run is conclusive), then at
+every larger stack size `S'` the emitted machine performs exactly the same events — for every
+program, argument vector, word size and build mode. -/
+theorem core_larger_stack_same (w S S' : Nat) (ck : Bool) (hS : S ≤ S') (args : List Int) (pr : Core.CProg) (hw : 2 ≤ w)
+    (hB : Core.progLen ck pr + stdlibLength < 256 ^ w)
+    (hSE : 5 * w + S' * w + args.length * w + w < 256 ^ w)
+    (hwf : Core.wfProg pr = true) (hlen : args.length = pr.params.length)
+    (fuel : Nat) (env' : Core.Env) (tr : List Ev) (res : Core.Res)
+    (hex : Core.srcRun ⟨w, S, ck⟩ fuel args pr = some (env', tr, res))
+    (hck : res = .div0 → ck = true)
+    (hroom : Core.pkS w (Core.entryOff w pr.params) pr.body ≤ S * w + args.length * w + w) :
+    ∃ m m',
+      Exec (sphinx (Core.coreProg ⟨w, S, ck⟩ pr)) (Core.coreInit ⟨w, S, ck⟩ args pr) (tr ++ Core.terminalEvs res)
+        ⟨tntPc (Core.progLen ck pr), m⟩ ∧
+      Exec (sphinx (Core.coreProg ⟨w, S', ck⟩ pr)) (Core.coreInit ⟨w, S', ck⟩ args pr) (tr ++ Core.terminalEvs res)
+        ⟨tntPc (Core.progLen ck pr), m'⟩ := by
+  have hSw := Nat.mul_le_mul_right w hS
+  obtain ⟨m, h, _⟩ := Core.core_correct ⟨w, S, ck⟩ args pr hw hB
+    (by show 5 * w + S * w + args.length * w + w < 256 ^ w; omega) hwf hlen fuel env' tr res hex hck hroom
+  obtain ⟨m', h', _⟩ := Core.core_correct ⟨w, S', ck⟩ args pr hw hB hSE hwf hlen fuel env' tr res
+    (Core.srcRun_stack_mono w S S' ck hS fuel args pr _ hex) hck
+    (by show Core.pkS w (Core.entryOff w pr.params) pr.body ≤ S' * w + args.length * w + w; omega)
+  exact ⟨m, m', h, h'⟩
 
 end HidVerif.Props.C18
